@@ -445,6 +445,25 @@ def _dimension(repo, col, R=None):
     uses = n_t is not None and T.find(n_t, lambda x: x.op == "param" and x.name == "n_nodes") is not None
     col.check(uses, R, cfi, "comp_edges_to_indices honours an explicit node count", "returned n_nodes depends on the argument",
               "the explicit node count is ignored", node=cfi.node)
+    # ... in EVERY case: when a count is given it is what is returned, whatever the edges look like
+    if n_t is not None:
+        from sa.terms import canon as _canon
+
+        def given_leaves(t_):
+            if t_.op == "ifexp":
+                c_ = t_.args[0]
+                tests_none = c_.op == "cmp" and c_.name in ("is", "is not", "==", "!=") and any(a_.op == "param" and a_.name == "n_nodes" for a_ in c_.args) and \
+                    any(a_.op == "const" and a_.name is None for a_ in c_.args)
+                if tests_none:
+                    return given_leaves(t_.args[2] if c_.name in ("is", "==") else t_.args[1])
+                return given_leaves(t_.args[1]) + given_leaves(t_.args[2])
+            return [t_]
+        lv = given_leaves(_canon(n_t))
+        okg = all(x.op == "param" and x.name == "n_nodes" for x in lv)
+        bad_ = next((x for x in lv if not (x.op == "param" and x.name == "n_nodes")), None)
+        col.check(okg, R, cfi, "comp_edges_to_indices returns an explicit node count unchanged, for any edge table", "n_nodes",
+                  f"with an explicit count the function can still return `{bad_.short(70) if bad_ is not None else ''}`: nodes without an axial edge at the end of the "
+                  f"numbering (single-compartment cells listed last) are dropped from the sparse system", node=cfi.node)
 
 
 def _explicit(repo, col):
